@@ -89,3 +89,23 @@ func TestDebugPrio(t *testing.T) {
 		}
 	}
 }
+
+// TestDebugReplay runs the scenario of a witness file once and prints the whole event log (development aid).
+func TestDebugReplay(t *testing.T) {
+	f := os.Getenv("VERIF_DEBUG_FILE")
+	if f == "" {
+		t.Skip("development aid")
+	}
+	var doc struct {
+		Witness struct{ Scenario PrioScenario }
+	}
+	if err := readJSON(f, &doc); err != nil {
+		t.Fatal(err)
+	}
+	r := newRun(t, "C01", "exploration")
+	c := r.prioCase(t, doc.Witness.Scenario)
+	for _, l := range c.res.Log {
+		t.Log(l)
+	}
+	t.Logf("findings=%v", c.res.Findings)
+}
